@@ -40,7 +40,7 @@ CLAIMS = {
          "After every block of every simulated history. Exact store-key collisions of concatenated names are known finding F11.", "5/C16", ""),
  'C18': ("deterministic simulation with fault injection: oracle outages, clock gaps/jumps (1 ms .. 40 days), restarts, adversarial/dust traffic, governance proposals moving one numeric/boolean field of any module's Params (enumerated by reflection) to an edge value that the module's own validation accepts, structural governance edges (pool parameters, pool and asset listings, chain-wide constants, inflation schedules), quiet periods in which only feeders and governance act, a permanently locked account created at the burn address, a fault-free cool-down with canary requests at the end of every run (bounded-liveness evidence); oracle = FinalizeBlock/Commit never errors or panics on any node",
          "Every FinalizeBlock and Commit of every node in every run must succeed; a failure is reported with the minimised trace.", "5/C18", ""),
- 'C19': ("deterministic simulation with crash/restart injection: twin replicas fed identical blocks, restart after commit / between FinalizeBlock and Commit / by injected disk read error; the replica also runs CheckTx and keeper queries the reference never runs; a fresh OS process re-executes the block log from genesis and from a database dump under another TZ/GOMAXPROCS; a third child (go1.26.8 testing/synctest bubble) re-executes it under a simulated wall clock that starts in the year 2000 and jumps by minutes to decades between blocks; thorough tier restarts the replica after every height",
+ 'C19': ("deterministic simulation with crash/restart injection: twin replicas fed identical blocks, restart after commit / between FinalizeBlock and Commit / by injected disk read error; the replica also runs CheckTx and keeper queries the reference never runs; a fresh OS process re-executes the block log from genesis and from a database dump under another TZ/GOMAXPROCS; in half of the runs the replicas start the production way (NewElysApp(loadLatest=true), nothing of the harness installed); a third child (go1.26.8 testing/synctest bubble) re-executes it under a simulated wall clock that starts in the year 2000 and jumps by minutes to decades between blocks; thorough tier restarts the replica after every height",
          "App hash, tx results (code, codespace, gas, data, events) and validator updates compared after every block between a reference node and a replica that is crashed and rebuilt from its SimDB.", "5/C19", ""),
  'C10': ("deterministic simulation: at the exact moment (pre-state of each third-party close-positions transaction through the ante wrapper; committed state + new header for the begin-block sweep) the chain's own health functions and trigger prices are evaluated on a discarded cache context; a clearly non-closable position must come out unchanged; every successful open must leave health > safety factor in the final state",
          "Bots naming arbitrary (owner,id) pairs incl. all positions in one message, racing in any order, price paths hovering around liquidation, stop-loss/take-profit near the market. Multi-position messages and the begin-block sweep are mirrored with the chain's own functions on a discarded branch, each position judged when its turn comes. Successful opens and collateral top-ups are re-checked with the borrow interest accrued.", "5/C10", ""),
